@@ -187,6 +187,7 @@ def replay_rulegen_roundtrip(a, homogeneous_only=True):
                                                              "b": {"Type": "AWS::S3::Bucket", "Properties": {"Name": "x y"}},
                                                              "n": {"Type": "AWS::SNS::Topic"}}},
     }
+    templates["floats and negative numbers"] = {"Resources": {"r": {"Type": "AWS::R::S", "Properties": {"Weight": 2.0, "T": 1.5, "N": -3}}}}
     if not homogeneous_only:
         templates["two of one type, DIFFERENT property sets"] = {"Resources": {"a": {"Type": "AWS::X::Y", "Properties": {"Size": 500, "Enc": True}},
                                                                               "b": {"Type": "AWS::X::Y", "Properties": {"Size": 50}}}}
@@ -250,27 +251,61 @@ def gen_rules_step(a):
                 log=("insert", "contains_key", "get_mut", "remove", "clear", "retain"), unroll=1, max_paths=20000)
     a.fns.append("commands::rulegen::gen_rules")
     bad, nstep = [], 0
+
+    def elem_of(v):
+        """the single element of vec![x].into_iter().collect() / of a quoted format, unwrapped to the text value"""
+        for _ in range(6):
+            if v is None:
+                return None
+            if v[0] == "struct" and v[1] == "collected":
+                v = v[2]["of"]
+            elif v[0] == "array" and len(v[1]) == 1:
+                v = v[1][0]
+            elif v[0] == "opaque" and v[1] in ex.iter_src:
+                v = ex.iter_src[v[1]]
+            else:
+                return v
+        return v
     for p in ex.paths:
         evs = [e for e in p.events if e[0] == "call"]
         if any(e[1] in ("remove", "clear", "retain") for e in evs):
             bad.append(pc_term(p.pc))
             continue
-        inner = [e for e in evs if e[1] == "next"]
         ins = [e for e in evs if e[1] == "insert"]
         ck = [e for e in evs if e[1] == "contains_key"]
         # a property step is recognisable by the lookup of the type in the rule map
         if not ck:
             continue
         nstep += 1
-        # every step ends in an insert (into the value set, the property map or the rule map)
         probs = []
         if not ins:
             probs.append("a property was visited and nothing was recorded")
+        # where the recorded text comes from: the property's own value, rendered by serde (to_string) or taken as the string it is
+        srcs = []
+        for e in evs:
+            if e[1] == "to_string" and "serde_json::Value as ToString" in (e[5] or ""):
+                srcs.append((e[2][0], e[3]))
+            if e[1] == "as_str" and e[3][0] == "enum" and "Some" in e[3][3]:
+                srcs.append((e[2][0], e[3][3]["Some"]))
+        texts = {str(t) for _v, t in srcs}
+        prop_vals = {str(v) for v, _t in srcs}
+        fmts = [e for e in evs if e[1] == "format"]
+        recorded = []
+        for e in ins:
+            val = elem_of(e[2][-1])
+            if val is not None and (val[0] != "opaque" or str(val) in texts or any(str(val) == str(f[3]) for f in fmts)):
+                recorded.append(val)
+        leaf = [v for v in recorded if str(v) in texts or any(str(v) == str(f[3]) for f in fmts)]
+        if ins and not leaf:
+            probs.append("the text recorded is not the property value's own rendering (serde's to_string of it, or the string itself, optionally quoted)")
         bad.append(pc_term(p.pc) if probs else "false")
+        if probs and os.environ.get("VERIF_DEBUG"):
+            print("gen_rules:", probs, [str(e[2][-1])[:80] for e in ins][:3], list(texts)[:3])
     c = a.discharge("rulegen/gen_rules/records-every-property", ex, bad,
-                    f"gen_rules, one resource x one property ({nstep} property steps): nothing is ever removed from the map, and every property "
-                    "visited ends in an insert - into the value set of (type, property) if both exist, else into a new set / property map",
-                    witness=False)
+                    f"gen_rules, one resource x one property ({nstep} property steps): nothing is ever removed from the map; every property "
+                    "visited ends in an insert - into the value set of (type, property) if both exist, else into a new set / property map - and "
+                    "the text inserted is the property value's OWN rendering: serde's to_string of that value, or the string it is (trimmed, "
+                    "newlines dropped, strings re-quoted), never a re-computed number", witness=False)
     if c:
         c["replay"] = replay_rulegen_roundtrip(a)
         c["reproduced"] = c["replay"].get("reproduced", False)
